@@ -362,6 +362,9 @@ class SimpleJSONRPCDispatcher(SimpleXMLRPCDispatcher, object):
                     config=config,
                 )
                 _logger.error("Error calling method %s: %s", method, fault)
+                if is_notification:
+                    # It's a notification: it must not be answered
+                    return None
                 return fault.dump()
 
             if is_notification:
